@@ -304,6 +304,8 @@ def load_corpus(prop):
     the seeded search so that a bug of a class seen before is reported independently of seed luck."""
     d = os.path.join(VERIF, "corpus", prop)
     out = []
+    if os.environ.get("VERIF_NO_CORPUS"):  # self-tests only: measure the seeded search alone
+        return out
     if os.path.isdir(d):
         for n in sorted(os.listdir(d)):
             if n.endswith(".json"):
